@@ -335,7 +335,14 @@ func (d *Downstream) flushAck() error {
 	d.dataIDAckBuffer = make(map[uint32]*message.DataID)
 	d.resultAckBuffer = make([]*message.DownstreamChunkResult, 0)
 
-	return d.wireConn.SendDownstreamDataPointsAck(d.ctx, ack)
+	if err := d.wireConn.SendDownstreamDataPointsAck(d.ctx, ack); err != nil {
+		// 送信に失敗した場合は、次回のフラッシュ（再開後を含む）で送信できるようにバッファを戻します。
+		d.upstreamInfoAckBuffer = ack.UpstreamAliases
+		d.dataIDAckBuffer = ack.DataIDAliases
+		d.resultAckBuffer = ack.Results
+		return err
+	}
+	return nil
 }
 
 func (d *Downstream) ackCompleteOrDone(ctx context.Context) <-chan *message.DownstreamChunkAckComplete {
